@@ -70,8 +70,20 @@ func extractC22(repo string) (string, error) {
 	if err != nil {
 		return "", err
 	}
+	widths := map[string]uint64{}
+	for _, n := range sizes {
+		widths[n] = fr[n]
+	}
+	layouts, err := c22Layouts(repo, widths)
+	if err != nil {
+		return "", err
+	}
+	shape, err := c22VarintShape(repo)
+	if err != nil {
+		return "", err
+	}
 	var b strings.Builder
-	b.WriteString("namespace WK.Gen.C22\n\n")
+	b.WriteString("import WK.Model.C22_Layout\nnamespace WK.Gen.C22\nopen WK.C22\n\n")
 	fmt.Fprintf(&b, "def latestVersion : Nat := %d\n", fr["LatestVersion"])
 	fmt.Fprintf(&b, "def legacyMessageSeqVersion : Nat := %d\n", fr["LegacyMessageSeqVersion"])
 	fmt.Fprintf(&b, "def settingTopic : Nat := %d\n", fr["SettingTopic"])
@@ -92,6 +104,10 @@ func extractC22(repo string) (string, error) {
 		}
 		fmt.Fprintf(&b, "(%q, %d)", n, fr[n])
 	}
-	b.WriteString("]\n\nend WK.Gen.C22\n")
+	b.WriteString("]\n\n")
+	b.WriteString(shape)
+	b.WriteString("\n")
+	b.WriteString(layouts)
+	b.WriteString("end WK.Gen.C22\n")
 	return b.String(), nil
 }
